@@ -115,6 +115,42 @@ def do(req):
     if op == 'lex':
         lt = asm.lex_tokens(req['line'])
         return {'ok': lt.tokens}
+    if op == 'alias_lemma':
+        # exhaustive over the REGISTERS literal: a constant defined as a register name evaluates to that register's
+        # number, and the number is the same register for lookup_register (plain and compressed)
+        from collections import ChainMap
+        bad = []
+        n = 0
+        for name in list(asm.REGISTERS):
+            if not isinstance(name, str):
+                continue
+            n += 1
+            try:
+                v = asm.Arithmetic(name).eval(None, ChainMap({}, asm.REGISTERS), asm.Line('<t>', 1, name))
+            except BaseException as e:      # noqa
+                bad.append([name, 'eval raises %s' % type(e).__name__])
+                continue
+            for comp in (False, True):
+                def lk(x):
+                    try:
+                        return asm.lookup_register(x, compressed=comp)
+                    except ValueError:
+                        return 'ValueError'
+                if lk(v) != lk(name):
+                    bad.append([name, 'constant value %r names %r, the name itself %r (compressed=%s)' % (v, lk(v), lk(name), comp)])
+        return {'ok': {'checked': n, 'bad': bad}}
+    if op == 'tables':
+        import hashlib
+        h = hashlib.sha256()
+        for name in sorted(vars(asm)):
+            v = getattr(asm, name)
+            if isinstance(v, dict):
+                h.update(repr((name, [(repr(k), getattr(x, 'func', x).__name__ if callable(x) else repr(x)) for k, x in v.items()])).encode())
+            elif isinstance(v, (set, frozenset)):
+                h.update(repr((name, sorted(map(repr, v)))).encode())
+            elif isinstance(v, (list, tuple)):
+                h.update(repr((name, v)).encode())
+        return {'ok': h.hexdigest()}
     if op == 'ping':
         return {'ok': asm.__file__, 'py': sys.version.split()[0]}
     raise ValueError('unknown op %r' % op)
